@@ -94,7 +94,7 @@ func (c *Ctx) ruleOrder() {
 				if e, kept := errValue(call); kept && e != nil {
 					// from the edge on which the mutator itself reported success
 					for _, ce := range ir.CondEdges(fn) {
-						if v, isNil := errIsNil(ce.RawCond, ce.RawTruth); v != nil && isNil && sameErrValue(v, e) {
+						if v, isNil := errIsNil(ce.RawCond, ce.RawTruth); v != nil && isNil && sameErrValueAt(v, e) {
 							starts = append(starts, struct {
 								b    *ssa.BasicBlock
 								pred int
